@@ -164,20 +164,26 @@ def eNmneCfg : Nat := 2      -- the scenario's nmne_config (as a number)
 def eIo : Nat := 3           -- io settings
 def eUsesRng : Nat := 4      -- 1 iff the scenario has scripted agents / red applications that draw from the global generators
 def eScheduled : Nat := 5    -- 1 iff the scheduler hands out a different scenario per episode
+def eNmneVar : Nat := 6      -- 1 iff the scheduled scenarios differ in their nmne_config (then it is a function of the episode)
 /-- game attributes -/
 def lState : Nat := 0        -- simulation state digest
 def lStep : Nat := 1         -- step counter
 
 /-- `PrimaiteGame.from_config` + `update_agents`: writes the two NMNE class attributes from the scenario, builds the
 game from the scenario and the import-only tables, draws the scripted agents' start parameters from the global RNG. -/
+def scenarioExpr : Expr := .add (.env eConfig) (.ite (.env eScheduled) (.env eEpisode) (.lit 0))
+
+/-- the `nmne_config` of the scenario the scheduler hands out for the current episode -/
+def nmneExpr : Expr := .add (.env eNmneCfg) (.ite (.env eNmneVar) (.env eEpisode) (.lit 0))
+
 def buildGame : List Cmd :=
-  [ .setGlob gNmne (.env eNmneCfg),
-    .setGlob gCapture (.env eNmneCfg),
+  [ .setGlob gNmne nmneExpr,
+    .setGlob gCapture nmneExpr,
     .newGame,
     -- every NIC's PacketCapture registers its file loggers (when pcap logging is on)
     .setGlob gPcapLoggers (.env eIo),
     -- the scheduler's scenario for this episode (constant schedulers ignore the episode number)
-    .setLoc lState (.add (.add (.env eConfig) (.ite (.env eScheduled) (.env eEpisode) (.lit 0))) (.glob gImport)),
+    .setLoc lState (.add scenarioExpr (.glob gImport)),
     .setLoc lStep (.lit 0),
     -- scripted agents draw their start step / start node / private generator seed
     .setLoc lState (.add (.loc lState) (.ite (.env eUsesRng) (.glob gRng) (.lit 0))),
@@ -227,6 +233,17 @@ def stepProgClean : List Cmd :=
     .emit (.loc lState),
     .emit (.loc lStep) ]
 
+/-- NOT the code: `from_config` as it would be if it assigned the NMNE class attributes only for a scenario that has a non-empty
+`nmne_config` section (a truthy value here). The write is conditional, so the operation reads what an earlier operation left
+(`resetProgCond_not_ok`, `C04_conditional_write_counterexample` in Props/C04). Gen obligation `C04_gen_writes_unconditional` excludes it. -/
+def buildGameCond : List Cmd :=
+  [ .setGlob gNmne (.ite nmneExpr nmneExpr (.glob gNmne)),
+    .setGlob gCapture (.ite nmneExpr nmneExpr (.glob gCapture)) ] ++ buildGame.drop 2
+
+def resetProgCond : List Cmd :=
+  [ .setGlob gRng .arg, .log (.add (.loc lState) (.glob gSimOutput)), .setEnv eEpisode (.add (.env eEpisode) (.lit 1)),
+    .setGlob gPcapLoggers (.lit 0) ] ++ buildGameCond
+
 /-- the committed classification of the numbered globals -/
 def refClass (g : Nat) : GClass :=
   if g = gRng then .rng
@@ -236,9 +253,10 @@ def refClass (g : Nat) : GClass :=
   else if g = gPcapLoggers then .sinkOnly
   else .importOnly
 
-def initInst (cfg nmne io : Val) (usesRng : Val := 1) (scheduled : Val := 0) : Inst :=
+def initInst (cfg nmne io : Val) (usesRng : Val := 1) (scheduled : Val := 0) (nmneVar : Val := 0) : Inst :=
   { env := fun x => if x = eConfig then cfg else if x = eNmneCfg then nmne else if x = eIo then io
-                    else if x = eUsesRng then usesRng else if x = eScheduled then scheduled else 0,
+                    else if x = eUsesRng then usesRng else if x = eScheduled then scheduled
+                    else if x = eNmneVar then nmneVar else 0,
     loc := fun _ => 0 }
 
 end Primaite.Isolation
